@@ -27,6 +27,14 @@ macro_rules! bfv_cases {
                     7 => { if rng.below(4) == 0 { v.clear(); m.clear(); } }
                     8 => { let got: Vec<$W> = v.iter().collect(); if got != m { return Err(format!("step {}: iter mismatch", step)); }
                            if !m.is_empty() { let f = rng.below(m.len() as u64 + 1) as usize; let got: Vec<$W> = v.iter_from(f).collect(); if got[..] != m[f..] { return Err(format!("step {}: iter_from({}) mismatch", step, f)); } } }
+                    9 if rng.below(2) == 0 => {
+                        // reverse unchecked iteration from every start
+                        let f = rng.below(m.len() as u64 + 1) as usize;
+                        let mut it = (&v).into_rev_unchecked_iter_from(f);
+                        for i in (0..f).rev() { let x = unsafe { it.next_unchecked() }; if x != m[i] { return Err(format!("step {}: reverse unchecked iteration from {} at {} = {} expected {}", step, f, i, x, m[i])); } }
+                        let mut it = (&v).into_unchecked_iter_from(f);
+                        for i in f..m.len() { let x = unsafe { it.next_unchecked() }; if x != m[i] { return Err(format!("step {}: unchecked iteration from {} at {} = {} expected {}", step, f, i, x, m[i])); } }
+                    }
                     9 => { let mut o = BitFieldVec::<$W>::new(width, 0); for &x in m.iter() { o.push(x); } if !(v == o) { return Err(format!("step {}: eq with rebuilt copy false", step)); } }
                     _ => { if rng.below(5) == 0 { v.reset(); for x in m.iter_mut() { *x = 0; } } }
                 }
